@@ -726,6 +726,9 @@ class Gen:
             r, rt = self.pure(e[3], env)
             if lt == rt and lt in getattr(self, "enums", {}) and e[1] in ("==", "!="):
                 return f"({l} {'=' if e[1] == '==' else '≠'} {r})"
+            if e[1] in ("==", "!=") and lt.startswith("Option<") and rt.startswith("Option<") and \
+                    (lt == rt or lt.endswith("?>") or rt.endswith("?>")) and lt[7:-1] in ("Address", "Symbol", "u32", "?"):
+                return f"({l} {'=' if e[1] == '==' else '≠'} {r})"
             if lt == rt and lt in ("Address", "Symbol") and e[1] in ("==", "!="):
                 return f"({l} {'=' if e[1] == '==' else '≠'} {r})"
             if lt == rt == "Bytes32":
@@ -1120,7 +1123,10 @@ class Gen:
             raise Unsupported(f"macro {e[1]}!")
         if kind == "return":
             if e[1] is None:
-                raise Unsupported("return without value")
+                if ret != "()":
+                    raise Unsupported("return without value")
+                wrap = getattr(self, "ret_wrap", None) or (lambda x: x)
+                return f"Comp.ok {wrap('()')}"
             wrap = getattr(self, "ret_wrap", None) or (lambda x: x)
             return self.tr(e[1], env, lambda a, t: f"Comp.ok {wrap(as_nat(a, t) if ret in NATTY else a)}", ret)
         if kind == "field":
@@ -1881,6 +1887,11 @@ FILES_MERKLE = [("Merkle", "packages/contract-utils/src/crypto/hashable.rs", ["c
                 ("Merkle", "packages/contract-utils/src/crypto/merkle.rs", ["verify", "verify_with_index"])]
 TYMAPS_MERKLE = {"packages/contract-utils/src/crypto/hashable.rs": {"H": "Bytes32", "S": "Hasher!", "Output": "Bytes32"},
                  "packages/contract-utils/src/crypto/merkle.rs": {"H": "Hasher!"}}
+STORE_NFT = {"Nft": {"Approval": (["u32"], "ApprovalData"), "ApprovalForAll": (["Address", "Address"], "u32")}}
+STRUCTS_NFT = {"ApprovalData": [("approved", "Address"), ("live_until_ledger", "u32")]}
+READS_NFT = {"Nft": {"ledger_sequence": "u32", "authorized": "addr2bool"}}
+FILES_NFT = [("Nft", "packages/tokens/src/non_fungible/storage.rs",
+              ["get_approved", "is_approved_for_all", "approve_for_all", "approve_for_owner", "check_spender_approval"])]
 STORE_ST = {"SimpleThreshold": {"AccountContext": (["Address", "u32"], "u32")}}
 STRUCTS_ST = {"ContextRule": [("id", "u32"), ("signers", "Vec<Signer>")], "SimpleThresholdAccountParams": [("threshold", "u32")]}
 READS_ST = {"SimpleThreshold": {"authorized": "addr2bool"}}
@@ -2399,7 +2410,10 @@ def main():
                 sys.stdout.write(txt)
         sys.exit(rc)
     try:
-        if "--simple-threshold" in sys.argv:
+        if "--nft" in sys.argv:
+            txt = translate(repo, FILES_NFT, reads=READS_NFT, structs=STRUCTS_NFT, store=STORE_NFT, impl_types={"Base": "Nft"},
+                            rename_types={"ApprovalData": "Nft.ApprovalData"})
+        elif "--simple-threshold" in sys.argv:
             txt = translate(repo, FILES_ST, reads=READS_ST, structs=STRUCTS_ST, store=STORE_ST)
         elif "--access" in sys.argv:
             txt = translate(repo, FILES_AC, reads={"Access": {}}, store=STORE_AC)
